@@ -231,8 +231,12 @@ def default_datum(ftype, default, depth=0):
                 except UnicodeEncodeError:
                     return default
         return default
-    if k == "union" and isinstance(default, (list, dict)) and node.branches:
-        return default_datum(node.branches[0], default, depth + 1)
+    if k == "union" and isinstance(default, (list, dict)):
+        # the first branch of the fitting JSON kind
+        for b in node.branches:
+            bd = deref(b)
+            if (isinstance(default, dict) and bd.kind in ("record", "map")) or (isinstance(default, list) and bd.kind == "array"):
+                return default_datum(b, default, depth + 1)
     return default
 
 
